@@ -159,6 +159,7 @@ def run(ctx):
     r2 = chk.rule("R2-spawns-size-workers", "the worker-creating call sits in a loop over Range{start: 0, end: <size parameter>} and runs once per iteration", floor=1)
     r2b = chk.rule("R2b-workers-named", "worker threads are created through thread::Builder::name(..) (Log::request_response unwraps thread::current().name())", floor=1)
     spawner_fns = sorted({f for f, _ in R.spawn_sites})
+    ctors = []
     for sp in spawner_fns:
         sfn = F.fns[sp]
         # named?
@@ -197,6 +198,8 @@ def run(ctx):
                 # the map's receiver is that range
                 recv_is_range = any(t["args"] and "std::ops::Range<usize>" in (t.get("arg_tys") or [""])[0] for t in maps)
                 once = len([1 for _, t in cfn.calls() if callee_name(t) == sp]) == 1 and not L.loops_of(cfn)
+                if ok_rng:
+                    ctors.append((pfn, b_[1][0]))
                 ok = bool(maps) and collected and ok_rng and recv_is_range and once
                 r2.instance({"constructor": pfn.def_, "idiom": "range.map(closure).collect()", "range": desc, "one_worker_per_element": once}, ok)
                 if not ok:
@@ -224,10 +227,62 @@ def run(ctx):
                 written = any(pk[0] == (b_[1][0] if b_[0] == "place" else -1) for _, _, pk, _ in du.writes)
                 ok_rng = a[0] == "const" and a[1] == 0 and end_is_param and not written
                 desc = {"start": a[1] if a[0] == "const" else str(a)[:40], "end": ("param _%d" % b_[1][0]) if end_is_param else str(b_)[:60]}
+            if ok_rng:
+                ctors.append((cfn, b_[1][0]))
             ok = bool(lp.form == "iter" and once and ok_rng)
             r2.instance({"constructor": e.src, "loop_form": lp.form, "worker_created_every_iteration": once, "range": desc}, ok)
             if not ok:
                 r2.violate("C07|R2|%s|range" % e.src, "%s does not create exactly one worker per element of 0..size (loop form %s, once per iteration %s, range %s)" % (e.src, lp.form, once, desc), cfn.file, e.line, e.src)
+
+    # R8: a pool without workers is refused: exactly the sizes >= 1 pass the constructor's guard
+    r8 = chk.rule("R8-no-empty-pool", "the pool constructor panics (assert) exactly for size 0: a pool of 0 workers accepts tasks and never runs them, a guard that refuses more than 0 removes a valid N", floor=1)
+    for cf, pl in {(c.def_, p_): (c, p_) for c, p_ in ctors}.values():
+        ccfg, cdu = cfg_of(cf), du_of(cf)
+        verdict = None
+        for sb in ccfg.live_blocks():
+            st = ccfg.blocks[sb]["term"]
+            if st["k"] != "switch" or st.get("discr_ty") != "bool":
+                continue
+            v = cdu.val_operand(st["discr"])
+            neg = False
+            while v[0] == "unop" and v[1] == "Not":
+                v, neg = v[2], not neg
+            if v[0] != "binop" or v[1] not in ("Gt", "Ge", "Lt", "Le", "Eq", "Ne"):
+                continue
+            a_, b2 = v[2], v[3]
+            op = v[1]
+            if a_[0] == "const" and b2[0] == "place":
+                a_, b2, op = b2, a_, {"Gt": "Lt", "Lt": "Gt", "Ge": "Le", "Le": "Ge", "Eq": "Eq", "Ne": "Ne"}[op]
+            if not (a_[0] == "place" and a_[1] == (pl, ()) and b2[0] == "const" and isinstance(b2[1], int)):
+                continue
+            f_t = [tb for val, tb in st["targets"] if val == 0]
+            if not f_t:
+                continue
+            t_edge, f_edge = st["otherwise"], f_t[0]
+            def panics(b0):
+                b_ = b0
+                for _ in range(6):
+                    tt = ccfg.blocks[b_]["term"]
+                    if tt["k"] == "call" and re.search(r"core::panicking::|std::rt::begin_panic|assert_failed", callee_name(tt) or ""):
+                        return True
+                    ss = ccfg.succ.get(b_, [])
+                    if len(ss) != 1:
+                        return False
+                    b_ = ss[0]
+                return False
+            pt, pf_ = panics(t_edge), panics(f_edge)
+            if pt == pf_:
+                continue
+            k = b2[1]
+            def cond(n_):
+                r_ = {"Gt": n_ > k, "Ge": n_ >= k, "Lt": n_ < k, "Le": n_ <= k, "Eq": n_ == k, "Ne": n_ != k}[op]
+                return (not r_) if neg else r_
+            accepted = [n_ for n_ in range(0, 5) if (not pt if cond(n_) else not pf_)]
+            verdict = accepted
+        ok = verdict == [1, 2, 3, 4]
+        r8.instance({"constructor": cf.def_, "sizes_0_to_4_accepted": verdict if verdict is not None else "no guard on the size"}, ok)
+        if not ok:
+            r8.violate("C07|R8|%s" % cf.def_, "%s accepts the sizes %s of 0..4 (expected 1..4): %s" % (cf.def_, verdict, "a pool without workers takes tasks and never runs them" if (verdict is None or 0 in verdict) else "a valid worker count is refused at start-up"), cf.file, cf.span["line"], cf.def_)
 
     # R5: submit sends the boxed closure on every path
     r5 = chk.rule("R5-submit-sends", "the submit function passes its (boxed) argument to Sender::send on every path to its return", floor=1)
